@@ -60,6 +60,7 @@ pub fn run(ctx: &Ctx) -> i32 {
         All10(u32),              // 10x10: all data vectors with first byte fixed
         Pairs(usize, usize),     // size, first position: all vectors with <= 2 non-zero positions
         AllValues(usize, usize), // size, position: all 255 values at that position (every field product with the generator)
+        ZeroFeedback(usize, usize), // size, block: data chosen so that the feedback of the division register vanishes 1..3 times in a row at every offset
     }
     let mut jobs = Vec::new();
     for si in 0..48 {
@@ -76,6 +77,15 @@ pub fn run(ctx: &Ctx) -> i32 {
         let positions: Vec<usize> = if ctx.tier == Tier::Thorough && SYMBOLS[si].total() <= 300 { (0..n).collect() } else { let mut p = vec![0, n / 2, n - 1]; p.extend(n.saturating_sub(SYMBOLS[si].blocks)..n); p.sort_unstable(); p.dedup(); p };
         for p in positions {
             jobs.push(Job::AllValues(si, p));
+        }
+    }
+    for si in 0..48 {
+        let nb = SYMBOLS[si].blocks;
+        for b in 0..nb {
+            if ctx.tier == Tier::Quick && nb > 2 && b != 0 && b != nb - 1 {
+                continue;
+            }
+            jobs.push(Job::ZeroFeedback(si, b));
         }
     }
     let pair_sizes: Vec<usize> = if ctx.tier == Tier::Thorough { vec![1, 24, 2, 25] } else { vec![1, 24] };
@@ -130,6 +140,33 @@ pub fn run(ctx: &Ctx) -> i32 {
                     w.check(si as u64, || desc(si, &d), |st| eval(si, &d, st));
                 }
             }
+            Job::ZeroFeedback(si, b) => {
+                w.label(|| format!("zero-feedback runs {} block {}", SYMBOLS[si].name(), b));
+                let sy = &SYMBOLS[si];
+                let k = sy.ec_per_block();
+                let (didx, _) = gf::block_indices(sy, b);
+                let nd = didx.len();
+                let base = lcg_vec(7000 + si as u64, sy.data);
+                let step = if ctx.tier == Tier::Quick && sy.data > 300 { 3 } else { 1 };
+                for off in (1..nd).step_by(step) {
+                    for run in 1..=3usize {
+                        if off + run > nd {
+                            continue;
+                        }
+                        let mut d = base.clone();
+                        // block data before the run: the register holds ec_of_block(prefix); the feedback of the
+                        // next codeword x is x ^ register[0], so x = register[0] makes it vanish
+                        let mut prefix: Vec<u8> = didx[..off].iter().map(|g| d[*g]).collect();
+                        for r in 0..run {
+                            let reg = gf::ec_of_block(&prefix, k);
+                            let x = reg[0];
+                            d[didx[off + r]] = x;
+                            prefix.push(x);
+                        }
+                        w.check(si as u64, || desc(si, &d), |st| { eval(si, &d, st)?; st.count("zero_feedback_vectors"); Ok(()) });
+                    }
+                }
+            }
             Job::Pairs(si, p) => {
                 w.label(|| format!("pairs {} first pos {}", SYMBOLS[si].name(), p));
                 let n = SYMBOLS[si].data;
@@ -150,7 +187,7 @@ pub fn run(ctx: &Ctx) -> i32 {
         "evaluations": ctx.evaluations(),
         "distinct_nontrivial": ctx.counter("nontrivial"),
         "rule": "48 sizes x {unit vectors v*e_p for every data position p, v in {1,2,0x80,0xFF}; zero; all-0xFF; 3 LCG vectors}; 10x10: all 256^3 data vectors (exhaustive); \
-12x12 and 8x18 (thorough: also 14x14, 8x32): all vectors with exactly two non-zero positions; all 255 values at the first, middle and last data positions of every block of every size (every product of a field element with every generator coefficient; thorough: every position of the sizes up to 300 codewords). Vectors are distinct by construction; non-trivial = non-zero vector. \
+12x12 and 8x18 (thorough: also 14x14, 8x32): all vectors with exactly two non-zero positions; all 255 values at the first, middle and last data positions of every block of every size (every product of a field element with every generator coefficient; thorough: every position of the sizes up to 300 codewords). zero-feedback runs: LCG data in which, at every offset of a block (first and last block of multi-block sizes; thorough: every block), the next 1..3 data codewords equal the head of the division register, so that the feedback multiplier vanishes 1, 2 or 3 times in a row while the register is busy (a 2^-8 .. 2^-24 coincidence for random data). Vectors are distinct by construction; non-trivial = non-zero vector. \
 Oracle: EC count of R2; all k syndromes of every interleaved block zero in the shift-and-xor field R1; equality with the reference systematic encoder (unit vectors at a block's last data position pin the generator polynomial).",
         "exhaustive": true,
         "sizes": 48,
